@@ -1,0 +1,76 @@
+//go:build verif
+
+package cmd
+
+import (
+	"context"
+	"crypto/tls"
+	"log/slog"
+	"time"
+
+	"github.com/AdguardTeam/AdGuardDNS/internal/agd"
+	"github.com/AdguardTeam/AdGuardDNS/internal/dnsmsg"
+	"github.com/AdguardTeam/AdGuardDNS/internal/filter"
+)
+
+// Verification hooks for property C01: the server groups of a parsed
+// configuration converted the way the builder does it, with a TLS manager that
+// hands out a given certificate, so that the resulting servers can be started
+// and queried over TLS, HTTPS and QUIC.  No logic of its own.
+
+// verifC01TLS is a TLS manager that clones one configuration.
+type verifC01TLS struct {
+	conf *tls.Config
+}
+
+func (verifC01TLS) Add(_ context.Context, _, _ string) (err error) { return nil }
+func (m verifC01TLS) Clone() (c *tls.Config)                       { return m.conf.Clone() }
+func (m verifC01TLS) CloneWithMetrics(_, _ string, _ []string) (c *tls.Config) {
+	return m.conf.Clone()
+}
+
+// VerifC01ServerGroups is [VerifC20Conf.VerifC20ServerGroups] with a TLS manager
+// that serves tlsConf.  It also returns the configured handle timeout.
+func (v *VerifC20Conf) VerifC01ServerGroups(
+	ctx context.Context,
+	l *slog.Logger,
+	indexIDs []string,
+	tlsConf *tls.Config,
+) (grps []*agd.ServerGroup, handleTimeout time.Duration, stage string, err error) {
+	c := v.c
+
+	btdCtrlConf, _ := c.Network.toInternal()
+	btdMgr, err := c.InterfaceListeners.toInternal(l, nil, btdCtrlConf)
+	if err != nil {
+		return nil, 0, "interface_listeners", err
+	}
+
+	strg := &verifC20Storage{ids: map[filter.ID]struct{}{}}
+	for _, id := range indexIDs {
+		strg.ids[filter.ID(id)] = struct{}{}
+	}
+
+	fltGrps, err := c.FilteringGroups.toInternal(strg)
+	if err != nil {
+		return nil, 0, "filtering_groups", err
+	}
+
+	msgs, err := dnsmsg.NewConstructor(&dnsmsg.ConstructorConfig{
+		Cloner:              dnsmsg.NewCloner(dnsmsg.EmptyClonerStat{}),
+		BlockingMode:        &dnsmsg.BlockingModeNullIP{},
+		StructuredErrors:    &dnsmsg.StructuredDNSErrorsConfig{Enabled: false},
+		FilteredResponseTTL: c.Filters.ResponseTTL.Duration,
+		EDEEnabled:          c.Filters.EDEEnabled,
+	})
+	if err != nil {
+		return nil, 0, "messages", err
+	}
+
+	tlsMgr := verifC01TLS{conf: tlsConf}
+	grps, err = c.ServerGroups.toInternal(ctx, msgs, btdMgr, tlsMgr, fltGrps, c.RateLimit, c.DNS)
+	if err != nil {
+		return nil, 0, "server_groups", err
+	}
+
+	return grps, c.DNS.HandleTimeout.Duration, "", nil
+}
